@@ -2,6 +2,7 @@ package godi
 
 import (
 	"context"
+	"errors"
 	"fmt"
 	"reflect"
 	"strconv"
@@ -350,10 +351,12 @@ func (sc *collection) doBuild(ctx context.Context) (Provider, error) {
 		// Clean up partially created provider
 		closeErr := p.Close()
 		if closeErr != nil {
+			// Both failures are reported: the one that stopped the build stays
+			// reachable (errors.Is / errors.As) next to the clean-up error
 			return nil, &BuildError{
 				Phase:   "cleanup",
 				Details: "failed to clean up partially created provider",
-				Cause:   closeErr,
+				Cause:   errors.Join(closeErr, err),
 			}
 		}
 
